@@ -99,6 +99,15 @@ def check_unary(k, R, acc):
         Sh = np.eye(3)
         Sh[0, 1] = sh
         bad.append(("sheared %g" % sh, R @ Sh))
+    # shears of either sign in every off-diagonal position, on either side
+    # (5e-4: three orders of magnitude beyond evo's 1e-6 tolerance, yet its
+    # square is below it)
+    for (i, j) in ((0, 1), (0, 2), (1, 0), (1, 2), (2, 0), (2, 1)):
+        for sh in (-0.1, -1e-3, -5e-4, 5e-4):
+            Sh = np.eye(3)
+            Sh[i, j] = sh
+            bad.append(("sheared %g at (%d,%d)" % (sh, i, j), R @ Sh))
+            bad.append(("sheared (left) %g at (%d,%d)" % (sh, i, j), Sh @ R))
     bad.append(("one axis scaled", R @ np.diag([1.0, 1.0, 1.5])))
     for name, B in bad:
         if lie.is_so3(B):
@@ -356,7 +365,7 @@ def run(ctx):
         "%d rotations: Rodrigues(axis in {x,y,z,(1,1,1),(1,-2,3)}, angle in "
         "{0,1e-16,1e-12,1e-8,1e-3,k*pi/8,pi-1e-3,pi-1e-8,pi-1e-12,pi}) + 24 "
         "cube rotations + 3 seed-dependent generic; each x 5 translations "
-        "(1e-6..1e9) x 7 scales (1e-4..1e4) x 12 near-miss matrices x 4 bottom "
+        "(1e-6..1e9) x 7 scales (1e-4..1e4) x 60 near-miss matrices (reflections, scalings, shears of either sign in every off-diagonal position on either side, one axis scaled) x 4 bottom "
         "rows; all %d ordered pairs (metric, symmetry, bi-invariance under 10 "
         "group elements on every 7th pair); all %d triples (triangle "
         "inequality). non-trivial = angle within 1e-3 of 0 or pi" %
